@@ -323,7 +323,15 @@ def rule_first_separator(ctx):
     C05.rule_R8(R.Retag(ctx, "C05."))
 
 
+def rule_narrowing(ctx):
+    """R5: frame lengths, stream ids and values are never silently truncated: every narrowing conversion in the HTTP crate fits"""
+    from . import _narrow as N
+    n = N.narrowing_preserved(ctx, ctx.program, "R5", ("huginn_net_http",))
+    ctx.floor("R5", "narrowing integer conversions in the HTTP crate", n, 4)
+
+
 def run(ctx):
+    rule_narrowing(ctx)
     rule_first_separator(ctx)
     rule_direction_flags(ctx)
     rule_decoder_state(ctx)
